@@ -109,7 +109,11 @@ def parseStep (ws : List String) : Option Call :=
       | some r => r.toNat?.map some
       | none => none)
     let pl ← parsePayload v key rest
-    some { t := t, fault := f, verb := v, key := key, rev := rev, pl := pl }
+    let own ← (match kvOf rest "own" with
+      | none => some none
+      | some "-" => some none
+      | some x => x.toNat?.map some)
+    some { t := t, fault := f, verb := v, key := key, rev := rev, pl := pl, own := own }
   | _ => none
 
 def parseAddrs (s : String) : Option (List (Nat × Nat)) :=
